@@ -78,7 +78,36 @@ def gc_phase_order(rec, F):
             return False
         must = set(x for x in c.pdom.get(0, set()) if x >= 0)
         return any(bi in must and must_reach_intern(tt, depth - 1) for bi, tt in c.calls())
-    b_intern = one(must_reach_intern, "evict-intern")
+    flat_evict_ok = None
+    if not any(t["f"] == INTERN for _, t in fn.calls()):
+        # the eviction was moved into the sweeps (possibly below a dispatch): judge the order on one flattened graph
+        from .. import facts as _facts
+        flat = _facts.flatten(F, fn, lambda t: t["f"].startswith(ALLOC + "::sweep_") and t["f"] != INTERN, 3)
+        E = {bi for bi, t in flat.calls() if t["f"] == INTERN}
+
+        def unmarks(f_, t):
+            if lastseg(t.get("decl", t["f"])) == "unmark":
+                return True
+            return any(any(lastseg(x.get("decl", x["f"])) == "unmark" for _, x in cl.calls()) for cp in sem.closure_args_of_call(f_, t) for cl in [F.fn(cp)] if cl)
+        U = {bi for bi, t in flat.calls() if unmarks(flat, t)}
+        Mk = {bi for bi, t in flat.calls() if is_root_mark(t) or t.get("decl") == "laythe_core::managed::manage::TraceRoot::trace" or sem.is_trace_call(t)}
+        Mk |= {bi for bi, t in flat.calls() if any(any(sem.is_trace_call(x) for _, x in cl.calls()) for cp in sem.closure_args_of_call(flat, t) for cl in [F.fn(cp)] if cl)}
+        flat_evict_ok = bool(E) and bool(U)
+        why = ""
+        if flat_evict_ok:
+            for u in U:
+                if sem.reaches(flat, 0, u, avoid=E) and u not in E:
+                    flat_evict_ok, why = False, "objects are unmarked on a path that has not swept the intern table yet"
+            for u in U:
+                if any(e != u and sem.reaches(flat, u, e) for e in E):
+                    flat_evict_ok, why = False, "the intern table is swept after objects were unmarked (every surviving string looks dead)"
+            for e in E:
+                if any(m != e and sem.reaches(flat, e, m) for m in Mk):
+                    flat_evict_ok, why = False, "something is marked after the intern table was swept"
+        rec.inst(R, "evict-intern (inside the sweeps): after all marking, before any unmarking, on every path", ok=flat_evict_ok, loc=fn.loc, note="evictions=%d unmarking steps=%d" % (len(E), len(U)))
+        if not flat_evict_ok:
+            rec.finding(R, "F4.gc-order/evict-intern-before-sweep-1", "collect_garbage (sweeps flattened): %s" % (why or "no intern eviction / no unmarking step found"), loc=fn.loc, fn=fn.path)
+    b_intern = one(must_reach_intern, "evict-intern") if flat_evict_ok is None else None
     obj_sweep = [(bi, t) for bi, t in fn.calls() if t["f"].startswith(ALLOC + "::sweep_") and t["f"] != INTERN]
     nested_intern = None
     if b_intern is not None and fn.blocks[b_intern]["t"]["f"] != INTERN:
@@ -101,9 +130,9 @@ def gc_phase_order(rec, F):
         rec.inst(R, "sweeps", ok=False, loc=fn.loc)
         rec.finding(R, "F4.gc-order/sweeps/count=%d" % len(obj_sweep), "collect_garbage: expected two heap sweeps (object heap, box heap), found %d" % len(obj_sweep), loc=fn.loc, fn=fn.path)
         return
-    if None in (b_root, b_temp, b_intern):
+    if None in (b_root, b_temp) or (b_intern is None and flat_evict_ok is None):
         return
-    chain = [("mark-roots", b_root), ("mark-temp-roots", b_temp), ("evict-intern", b_intern), ("sweep-1", obj_sweep[0][0]), ("sweep-2", obj_sweep[1][0])]
+    chain = [("mark-roots", b_root), ("mark-temp-roots", b_temp)] + ([("evict-intern", b_intern)] if b_intern is not None else []) + [("sweep-1", obj_sweep[0][0]), ("sweep-2", obj_sweep[1][0])]
     # can_collect guard
     g = [(bi, t) for bi, t in fn.calls() if lastseg(t["f"]) == "can_collect"]
     okg = False
@@ -132,7 +161,7 @@ def gc_phase_order(rec, F):
         if not ok:
             rec.finding(R, "F4.gc-order/%s-before-%s" % (n1, n2), "collect_garbage: %s does not precede %s on every path" % (n1, n2), loc=fn.loc, fn=fn.path)
     # sweeps post-dominate marking
-    for n, b in chain[3:]:
+    for n, b in [c_ for c_ in chain if c_[0].startswith("sweep-")]:
         ok = b in fn.pdom.get(b_root, set())
         rec.inst(R, "%s-postdominates-mark" % n, ok=ok, loc=fn.loc)
         if not ok:
@@ -336,7 +365,7 @@ def no_mark_after_evict(rec, F):
     INTERN = ALLOC + "::sweep_intern_cache"
     n = 0
 
-    def marks(f, t, depth=2):
+    def marks(f, t, depth=3):
         if sem.is_trace_call(t) or t.get("decl") == "laythe_core::managed::manage::TraceRoot::trace":
             return True
         if lastseg(t["f"]) in ("trace", "trace_root") and t["f"].startswith(ALLOC):
@@ -351,7 +380,7 @@ def no_mark_after_evict(rec, F):
                 return True
         return False
 
-    def evicts(t, depth=2):
+    def evicts(t, depth=4):
         if t["f"] == INTERN:
             return True
         if depth and t["f"].startswith(ALLOC):
